@@ -229,12 +229,20 @@ def check (ps : PState) (evLine : String) (obs : List String) (fault : Option St
     let f05 := if typ == "recv" && kind == "srrsp" && seid == 0 then
         ["C05 a Session Report Response with SEID 0 faulted the UPF instead of removing the matching session"] else []
     -- C08: every request is answered at the sender's address with its sequence number; a faulted UPF answers nothing
+    let f09 := if typ == "recv" && kind ∈ ["srrsp", "orsp"] then
+        [s!"C09 a response from p{peer} with sequence number {seq}" ++
+         (if (ps.outst.any fun o => o.1 == (peer, seq)) then "" else " (matching no outstanding request: it must be ignored)") ++
+         s!" faulted the UPF ({f})"] else []
+    let f09 := f09 ++ (if typ == "tmo" then
+        [s!"C09 the expiry of timer {lookD m "k" "?"} p{peer}-{seq}" ++
+         (if lookD m "k" "" == "tx" && !(ps.prev.tx.any fun t => t.1 == s!"p{peer}-{seq}") then " (matching no outstanding request: it must be ignored)" else "") ++
+         s!" faulted the UPF ({f})"] else [])
     let f08 := if typ == "recv" && kind ∈ ["hb", "assoc", "est", "mod", "del"] then
         [s!"C08 the {kind} request from p{peer} seq {seq}" ++
          (if (kind == "mod" || kind == "del") && (ps.prev.live seid).isNone
           then s!" for SEID {hexN seid} (no such session: 'session context not found' with SEID 0 is due)" else "") ++
          s!" was not answered; the UPF faulted ({f})"] else []
-    (ps, f07 ++ f04 ++ f05 ++ f08)
+    (ps, f07 ++ f04 ++ f05 ++ f08 ++ f09)
   | none =>
   let d := match dump with
     | some l => parseDump l
@@ -600,6 +608,12 @@ def check (ps : PState) (evLine : String) (obs : List String) (fault : Option St
               (l.map fun p => (p.1, (p.2.toArray.qsort (· < ·)).toList)).toArray.qsort (fun a b => a.1 < b.1) |>.toList
             if norm ds.pdrs != norm c.pdrs then
               fs := fs ++ [s!"C12 session {hexN up}: the PDRs' recorded URR lists are {reprStr (norm ds.pdrs)}; Create / Update / Remove PDR so far give {reprStr (norm c.pdrs)}"]
+            -- (d) the URRs the session knows are the ones created and not removed by the requests: ending the last reference of
+            -- a URR (Remove / Update PDR) does not end the URR
+            let have_ := ((ds.urrs.filter fun u => !u.removed).map (·.id)).toArray.qsort (· < ·) |>.toList
+            let want := (c.urrs.eraseDups).toArray.qsort (· < ·) |>.toList
+            if have_ != want then
+              fs := fs ++ [s!"C12 session {hexN up}: the URRs the session knows are {reprStr have_}; Create URR / Remove URR so far give {reprStr want} (a URR that lost its last referring PDR still exists: a later Remove / Query URR or the session's deletion must still return its usage)"]
             for u in ds.urrs do
               let n := (ds.pdrs.filter fun p => p.2.contains u.id).length
               if u.ref != n then
